@@ -34,20 +34,25 @@ def epoch_history(mon, clause, jde, fns, before=None):
     if before is None:
         before = jde + 2345.678
     mon.evals += 1
+    # reference answers first, from fresh objects and before the re-used
+    # object exists: a memo keyed on the caller's object would otherwise hand
+    # the stale answer to an equal fresh object as well
+    first = [call(f, Epoch(jde)) for _name, f in fns]
     e = Epoch(before)
     for _name, f in fns:
         call(f, e)
     e.set(jde)
-    for name, f in fns:
+    for (name, f), want0 in zip(fns, first):
         got = call(f, e)
         want = call(f, Epoch(jde))
         mon.hit("history:" + ("answered" if got[0] == "ok" else
                              "refused:" + name))
-        mon.check(clause, got == want,
+        mon.check(clause, got == want0 and want == want0,
                   lambda: {"function": name, "jde": jde,
                            "object_previously_held": before,
+                           "fresh_object_before": repr(want0)[:300],
                            "reused_object": repr(got)[:300],
-                           "fresh_object": repr(want)[:300]})
+                           "fresh_object_after": repr(want)[:300]})
     mon.check(clause, e.jde() == Epoch(jde).jde(),
               lambda: {"jde": jde, "object_after_calls": e.jde()})
 
